@@ -343,6 +343,23 @@ def handle (toks : List String) : String :=
       let sd := q.flatten pre
       let back := match QBitsSer.unflatten pre sd with | some r => if r == q then "roundtrip-ok" else "roundtrip-differs" | none => "unflatten-fails"
       " ".intercalate (sd.map fun kv => kv.1 ++ "=" ++ (match kv.2 with | .tensor _ => "T" | .str t => t.replace " " "_")) ++ " " ++ back
+  -- C10: the state_dict of a whole model = the per-module dicts under their dotted prefixes (`modelSave`);
+  -- specs: pre,kind,bias;…  (kind: float | qbytes | qbits).  Output: the keys in order, then whether every
+  -- module is read back from the combined dict
+  | ["model10", specs] =>
+      let ms : List (String × QModuleSer) := (specs.splitOn ";").filterMap fun sp =>
+        match sp.splitOn "," with
+        | [pre, kind, bias] =>
+          let b : Option String := if bias == "1" then some "B" else none
+          let m : QModuleSer := match kind with
+            | "qbits" => ⟨.qbits ⟨⟨"P", 4, [2, 8], [8, 1]⟩, "S", "Z", "qint4", some 0, none, [4, 8], [8, 1]⟩, b, "I", "O", some "qint4", none⟩
+            | "qbytes" => ⟨.qbytes ⟨"D", "S", "qint8", some 0, [4, 8], [8, 1]⟩, b, "I", "O", some "qint8", none⟩
+            | _ => ⟨.float "W", b, "I", "O", some "qint8", none⟩
+          some (pre, m)
+        | _ => none
+      let sd := modelSave ms
+      let ok := ms.all fun pm => QModuleSer.load pm.1 pm.2.bias.isSome sd == some pm.2
+      " ".intercalate (sd.map (·.1)) ++ " " ++ (if ok then "all-roundtrip-ok" else "roundtrip-differs")
   -- C04
   | ["pack", bits, shape, data] =>
       let t : T Nat := ⟨parseShape shape, (parseNatList data).toArray⟩
